@@ -5,7 +5,7 @@ package consensus
 // Contracts for the verifier in /verif (comment-only; see /verif/DESIGN.md).
 
 /*@
-immutable RaftNode.db, RaftNode.balloon, RaftNode.log, RaftNode.metrics, RaftNode.hasherF by NewRaftNodeWithLogger, NewRaftNode, RaftNode.Close
+immutable RaftNode.db, RaftNode.balloon, RaftNode.log, RaftNode.metrics, RaftNode.hasherF, RaftNode.snapshotsCh by NewRaftNodeWithLogger, NewRaftNode, RaftNode.Close
 
 // the node's counters exist once the node is built
 typeinv raftNodeMetrics by newRaftNodeMetrics: !isnil(self.Version) && !isnil(self.Adds) && !isnil(self.MembershipQueries) && !isnil(self.DigestMembershipQueries) && !isnil(self.IncrementalQueries)
@@ -63,16 +63,25 @@ func RaftNode.propose
   assumes isnil(result_1) ==> forall k int :: 0 <= k && k < len(dyn(dyn(result_0, *fsmResponse).val, []*balloon.Snapshot)) ==> dyn(dyn(result_0, *fsmResponse).val, []*balloon.Snapshot)[k] != nil
 
 // an empty bulk is refused before anything is proposed; otherwise exactly one command is proposed
+// C17, producer side: every snapshot the insertion returned is handed to the sender's channel
+// exactly once, as its own copy (sends/sentv are maintained by the verifier at each send)
+define sentSnap(n, k) = asptr(sentv[n.snapshotsCh][k], *protocol.Snapshot)
+define sameSnap(p, s) = p != nil && p.Version == s.Version && bytes(p.EventDigest) == bytes(s.EventDigest) && bytes(p.HistoryDigest) == bytes(s.HistoryDigest) && bytes(p.HyperDigest) == bytes(s.HyperDigest)
 func RaftNode.AddBulk
-  props C05 C11
+  props C05 C11 C17
   requires n.hasherF != nil && pure_fn(n.hasherF) && nonnil_fn(n.hasherF)
-  modifies everything, proposeCalls
+  modifies everything, proposeCalls, sends, sentv
   ensures C11/empty-bulk-never-proposed: len(bulk) == 0 ==> proposeCalls == old(proposeCalls) && !isnil(result_1)
   ensures C11/at-most-one-proposal: proposeCalls == old(proposeCalls) || proposeCalls == old(proposeCalls) + 1
+  ensures C17/one-send-per-issued-snapshot: isnil(result_1) ==> sends[n.snapshotsCh] == old(sends[n.snapshotsCh]) + len(result_0)
+  ensures C17/nothing-sent-on-error: !isnil(result_1) ==> sends[n.snapshotsCh] == old(sends[n.snapshotsCh])
+  ensures C17/what-was-sent-is-what-was-issued: isnil(result_1) ==> forall k int :: 0 <= k && k < len(result_0) ==> sameSnap(sentSnap(n, old(sends[n.snapshotsCh]) + k), result_0[k])
   // ASSUMED (C05 for the balloon, carried through raft): one snapshot per event
   assumes isnil(result_1) ==> len(result_0) == len(bulk)
   loop 1 modifies nothing
-  loop 2 modifies nothing
+  loop 2 modifies sends, sentv
+  loop 2 invariant C17/one-send-per-iteration: -1 <= rangeindex && rangeindex < len(snapshotBulk) && sends[n.snapshotsCh] == old(sends[n.snapshotsCh]) + rangeindex + 1
+  loop 2 invariant C17/sent-so-far-are-the-issued-ones: forall k int :: 0 <= k && k <= rangeindex ==> allocated(sentSnap(n, old(sends[n.snapshotsCh]) + k)) && sameSnap(sentSnap(n, old(sends[n.snapshotsCh]) + k), snapshotBulk[k])
 
 func RaftNode.Add
   props C05 C11
